@@ -26,6 +26,18 @@ the option stays in the configuration (and in the saved file) while hidden; the 
 hides / shows them (alone, in one request with the edits, together with `save`), resets, saves and loads files that carry
 values for them while hiding them.  A user value given while shown must not count while hidden (client, live server and
 saved file agree on the default) and counts again when shown.  trees() asserts that every value type has such an option.
+Tree dimension "titles that read like the saved file's own marker lines": write_config() renders a menu / comment header as
+`#`, `# <title>`, `#`.  Trees pragma / pragmasaved hold menus and comments titled exactly `default:` (the pragma "the next
+assignment is a default value") in front of options of type int / string / bool and of a choice member that get user
+values (one is also the target of an enabled `set default`, so a user value read back as a default changes the value, not
+only the protocol-3 flag); tree markers holds the neighbours: titles equal to the begin / end marker of the deprecated
+options block and titles of the form `CONFIG_<NAME> is not set`.  Sigs of these single-construct trees carry `construct`.
+History dimension "failed loads / saves, then null": tree paths has loads of a missing file / a directory / a path under
+a regular file and saves to a path whose directory is missing / is a regular file (alone, with a `set` in the same request),
+followed by edits, {"save": null} and {"load": null}.  The current file (what null means, the file oracle (b') starts the fresh
+server on, the file oracle (d) takes the loaded content from) is computed by last_file() from the run directory's files --
+NOT from the reply's error texts: a failed load / save does not change it.  A successful save whose target does not exist
+afterwards is kind "saved_file_missing".
 Only mismatches that the LAST request introduced are reported (those already present after the prefix were reported
 when the prefix was visited), so `op` in the signature is the triggering request class.
 """
@@ -49,7 +61,12 @@ RULE = (
     "a non-default member selectable by set, by the start-up file and by the hand-written file (default-marked and plain "
     "start-up files), reset by symbol / menu id / all; an option of every value type (bool, int, hex, string, float, ranged "
     "float) hidden through its prompt condition while it holds a user value, in set / hide / save / show / load interleavings, "
-    "from an all-default start and from a start-up file that gives the hidden options values; a fresh "
+    "from an all-default start and from a start-up file that gives the hidden options values; menus / comments whose "
+    "title reads like a marker line of the saved file (`default:` pragma, begin / end of the deprecated block, `CONFIG_X is "
+    "not set`) in front of options that get user values (trees pragma, pragmasaved, markers); failed loads (missing file, "
+    "directory, path under a regular file) and failed saves (missing directory, path under a regular file), alone or with a "
+    "`set`, followed by edits and null-path saves / loads (tree paths); these four small trees run to depth 3 (quick) in "
+    "every protocol pair; a fresh "
     "real server per history; states merged on (server configuration incl. user values, client model, files on disk, "
     "last-used file); sub-trees whose depth-1 state equals the initial state or that of an earlier first request are "
     "explored there. `states` is the sum of per-sub-tree distinct states. distinct_nontrivial = distinct (tree, protocols, "
@@ -66,6 +83,11 @@ ASSUMPTIONS = [
     "with set / reset in the same request the configuration is no longer the loaded file's); the loaded content is taken "
     "from the files the prefix history left on disk, the file a null load uses follows the server's documented rule (a "
     "named load / save becomes current unless it failed)",
+    "whether a load / save failed is derived from the files of the run directory (a load needs an existing regular file "
+    "directly in the directory, a save a target directly in the directory), not from the reply; directories are never "
+    "save targets (write_config() renames whatever is at the target to <name>.old, so such a save succeeds); a request "
+    "combining a failing load with a save is not generated (the documentation does not say which file null then means); "
+    "permission-denied targets are not generated (the checks run as root)",
     "prompt-hidden options: one switch hides all types at once (the evaluator's per-type branches are independent; what is "
     "varied is the type, the request interleaving and where the value came from -- request, start-up file, loaded file)",
     "menu ids are obtained by running with cwd = tree directory and --kconfig Kconfig, as the repository's tests do",
@@ -74,6 +96,19 @@ ASSUMPTIONS = [
 SNAP = "$D/snap"
 HAND = "$D/hand"
 ORIG = "$D/orig"  # a copy of the file the server was started on (never written by the explored requests)
+MISSING = "$D/missing"  # never exists (no explored request names it as a save target)
+ADIR = "$D/adir"  # an existing directory: cannot be loaded (never a save target: write_config() moves whatever is there to <name>.old)
+NODIR = "$D/nodir/x"  # the parent directory does not exist: cannot be saved to
+NOTDIR = "$D/hand/x"  # the parent is a regular file: cannot be saved to, cannot be loaded
+
+
+def aux_of(hand: str, sdk0: str) -> Dict[str, Any]:
+    """auxiliary files of every explored run directory (next to the Kconfig tree and `sdkconfig`)"""
+    return {"hand": hand, "orig": sdk0, "adir": None}
+
+
+REGULAR0 = ("sdkconfig", "hand", "orig")  # regular files every run starts with
+DIRS0 = ("adir",)
 
 
 # --------------------------------------------------------------------------------------------------
@@ -496,7 +531,146 @@ def trees() -> Dict[str, dict]:
         "hand": "CONFIG_ADV=y\nCONFIG_PF=2.25\nCONFIG_PI=8\n",
         "alphabet": ph_alpha,
     }
+    # titles that read like the saved file's own pragma: write_config() renders the header of a menu / comment as the
+    # three lines `#`, `# <title>`, `#`, so a menu or comment titled exactly `default:` puts the line `# default:` (the
+    # pragma "the next assignment is a default value") in front of the first option written after that header.  Those
+    # options get user values (int, string, bool, a choice member; one of them is also the target of an enabled `set
+    # default`, so that being read back as a default changes the VALUE, not only the protocol-3 `defaults` flag); the
+    # comment's header comes and goes with SHOWC.  The start-up file of `pragma` is empty, `pragmasaved` starts on the file
+    # a server saved with user values behind every such header.
+    preset = b("PRESET", "y")
+    preset.wsets.append(("FIRST", L("50"), None))
+    pr_files = kgen.render(
+        Program(
+            children=[
+                preset,
+                b("SHOWC", "y"),
+                Menu(
+                    title="default:",
+                    children=[
+                        Cfg("FIRST", "int", prompt="first", defaults=[(L("1"), None)]),
+                        Cfg("SECOND", "int", prompt="second", defaults=[(L("2"), None)]),
+                    ],
+                ),
+                Comment("default:", depends=[S("SHOWC")]),
+                Cfg("AFTERC", "string", prompt="afterc", defaults=[(L('"c"'), None)]),
+                Menu(title="Inner", children=[Comment("default:"), b("AFTERB", "y")]),
+                Menu(title="default:", children=[Choice(name="PCH", prompt="pch", children=[b("MA"), b("MB")])]),
+            ]
+        )
+    )
+    pr_alpha = [
+        _set(FIRST=7),
+        _set(SECOND=5),
+        _set(PRESET=False),
+        _set(AFTERC="x"),
+        _set(AFTERB=False),
+        _set(MB=True),
+        _set(SHOWC=False),
+        _setp(("FIRST", 9), ("AFTERC", "y"), ("AFTERB", False), ("MB", True)),
+        {"reset": ["FIRST"]},
+        {"reset": ["@MENU0"]},
+        {"set": {"FIRST": 8}, "save": None},
+        {"reset": ["all"]},
+        {"load": None},
+        {"load": SNAP},
+        {"load": HAND},
+        {"save": None},
+        {"save": SNAP},
+    ]
+    T["pragma"] = {
+        "files": pr_files,
+        "sdk0": "",
+        "hand": 'CONFIG_FIRST=3\nCONFIG_AFTERC="hand"\n# CONFIG_AFTERB is not set\n# CONFIG_MA is not set\nCONFIG_MB=y\n',
+        "alphabet": pr_alpha,
+        "small": True,
+    }
+    T["pragmasaved"] = {
+        "files": pr_files,
+        "sdk0": "# default:\nCONFIG_PRESET=y\n# default:\nCONFIG_SHOWC=y\n\n#\n# default:\n#\nCONFIG_FIRST=7\n# default:\nCONFIG_SECOND=2\n# end of default:\n\n"
+        '#\n# default:\n#\nCONFIG_AFTERC="x"\n\n#\n# Inner\n#\n\n#\n# default:\n#\n# CONFIG_AFTERB is not set\n# end of Inner\n\n'
+        "#\n# default:\n#\n# CONFIG_MA is not set\nCONFIG_MB=y\n# end of default:\n",
+        "hand": "CONFIG_SECOND=4\n",
+        "alphabet": pr_alpha,
+        "small": True,
+    }
+    # failed loads / saves (a file that does not exist, a directory, a path whose directory does not exist) FOLLOWED by
+    # edits and by null-path saves / loads: null keeps meaning the file the last SUCCESSFUL named load / save (or the
+    # command line) named, so the file a later {"save": null} must have written -- and a fresh server is started on --
+    # is that one, and {"load": null} brings back that file's content
+    T["paths"] = {
+        "files": kgen.render(
+            Program(
+                children=[
+                    b("FEATURE"),
+                    Cfg("LEVEL", "int", prompt="level", depends=[S("FEATURE")], ranges=[(L("0"), L("9"), None)], defaults=[(L("2"), None)]),
+                    Cfg("LABEL", "string", prompt="label", defaults=[(L('"none"'), None)]),
+                ]
+            )
+        ),
+        "sdk0": 'CONFIG_LABEL="start"\n',
+        "hand": "CONFIG_FEATURE=y\nCONFIG_LEVEL=5\n",
+        "alphabet": [
+            _set(FEATURE=True),
+            _set(LABEL="x"),
+            _setp(("LEVEL", 7), ("FEATURE", True)),
+            {"reset": ["all"]},
+            {"load": MISSING},
+            {"load": ADIR},
+            {"save": NODIR},
+            {"save": NOTDIR},
+            {"load": NOTDIR},
+            {"set": {"LABEL": "y"}, "save": NODIR},
+            {"load": MISSING, "set": {"LABEL": "z"}},
+            {"set": {"LABEL": "w"}, "save": None},
+            {"load": None},
+            {"save": None},
+            {"load": HAND},
+            {"load": SNAP},
+            {"save": SNAP},
+        ],
+        "small": True,
+    }
+    # neighbours of the pragma title: titles that read like the saved file's OTHER marker lines -- the begin / end marker of
+    # the deprecated-options block (everything between them is skipped on load) and an `# CONFIG_<name> is not set` line
+    # (an assignment).  A menu and a comment of each kind, in front of / naming options that get user values.
+    T["markers"] = {
+        "files": kgen.render(
+            Program(
+                children=[
+                    b("BEFORE"),
+                    Menu(title="Deprecated options for backward compatibility", children=[Cfg("INDEP", "int", prompt="indep", defaults=[(L("4"), None)])]),
+                    Cfg("AFTERDEP", "int", prompt="afterdep", defaults=[(L("6"), None)]),
+                    Comment("End of deprecated options"),
+                    Cfg("AFTEREND", "int", prompt="afterend", defaults=[(L("1"), None)]),
+                    Menu(title="CONFIG_VICTIM is not set", children=[Cfg("INM", "int", prompt="inm", defaults=[(L("4"), None)])]),
+                    b("VICTIM"),
+                    Comment("CONFIG_V2 is not set"),
+                    b("V2"),
+                ]
+            )
+        ),
+        "sdk0": "",
+        "hand": "CONFIG_INDEP=5\nCONFIG_VICTIM=y\n",
+        "alphabet": [
+            _set(BEFORE=True),
+            _set(INDEP=9),
+            _set(AFTERDEP=8),
+            _set(AFTEREND=3),
+            _set(VICTIM=True),
+            _set(V2=True),
+            {"reset": ["all"]},
+            {"load": None},
+            {"load": HAND},
+            {"save": None},
+            {"save": SNAP},
+            {"load": SNAP},
+        ],
+        "small": True,
+        "construct": "title_reads_like_file_marker",
+    }
     selfcheck_prompt_hidden(T)
+    selfcheck_pragma_titles(T)
     return T
 
 
@@ -534,6 +708,18 @@ def selfcheck_prompt_hidden(T: Dict[str, dict]) -> None:
         raise AssertionError(f"C14: no prompt-hidden option with a user value for type(s) {missing}")
 
 
+def selfcheck_pragma_titles(T: Dict[str, dict]) -> None:
+    """harness invariant: the pragma trees do hold a menu and a comment titled like the saved file's default pragma, each in
+    front of an option that some request of the alphabet gives a user value"""
+    text = T["pragma"]["files"]["Kconfig"]
+    for need in ('menu "default:"', 'comment "default:"'):
+        if need not in text:
+            raise AssertionError(f"C14: the pragma tree lacks {need}")
+    named = {n for a in T["pragma"]["alphabet"] for n in a.get("set", {})}
+    if not {"FIRST", "AFTERC", "AFTERB", "MB"} <= named:
+        raise AssertionError("C14: an option behind a pragma-like title never gets a user value")
+
+
 # (server default version, request version): the three client versions against the default server (the CLI always
 # starts protocol 3) and the two older protocols end to end
 PAIRS = [(3, 3), (3, 2), (3, 1), (2, 2), (1, 1)]
@@ -545,9 +731,13 @@ def req_line(cv: int, body: dict) -> str:
     return json.dumps(d)
 
 
-def depth_of(tier: str, dv: int, cv: int) -> int:
+def depth_of(tier: str, dv: int, cv: int, small: bool = False) -> int:
     """quick: depth 3 for the current protocol (3,3), depth 2 for the other pairs; thorough: depth 4 for (3,3) and (3,1)
-    (what a protocol-3 / protocol-1 client meets with the server the CLI starts), depth 3 for (3,2), (2,2), (1,1)"""
+    (what a protocol-3 / protocol-1 client meets with the server the CLI starts), depth 3 for (3,2), (2,2), (1,1).
+    The small trees (pragma-like titles, failed loads / saves) need three requests (edit, failed load / save or save, null
+    save / load) in every protocol: depth 3 for every pair in the quick tier."""
+    if small and tier == "quick":
+        return 3
     if tier == "quick":
         return 3 if (dv, cv) == (3, 3) else 2
     return 4 if (dv, cv) in ((3, 3), (3, 1)) else 3
@@ -555,9 +745,13 @@ def depth_of(tier: str, dv: int, cv: int) -> int:
 
 def items(tier: str, seed: int):
     out = []
+    skip = [x for x in os.environ.get("MCK_C14_SKIP_TREES", "").split(",") if x]  # development only (e.g. judging a seeded
+    # change while a tree alarms on the unchanged repository); unset in every recorded run
     for name, t in trees().items():
+        if name in skip:
+            continue
         for dv, cv in PAIRS:
-            depth = depth_of(tier, dv, cv)
+            depth = depth_of(tier, dv, cv, bool(t.get("small")))
             alpha = [a for a in t["alphabet"] if cv >= 3 or "reset" not in a or a["reset"] in (["all"], ["NOPE", "no-such-menu-1"])]
             for first in range(len(alpha)):
                 out.append(
@@ -571,6 +765,7 @@ def items(tier: str, seed: int):
                         "cv": cv,
                         "depth": depth,
                         "first": first,
+                        "construct": t.get("construct"),
                     }
                 )
     return out
@@ -662,7 +857,7 @@ class ServerDied(Exception):
 
 
 class State:
-    __slots__ = ("run", "client", "bad", "lastfile")
+    __slots__ = ("run", "client", "bad", "lastfile", "lastok")
 
 
 def req_class(line: str) -> str:
@@ -691,24 +886,41 @@ def req_class(line: str) -> str:
     return "+".join(parts) or "empty"
 
 
-def last_file(h: tuple, lines: List[str]) -> str:
-    """the file a `load` / `save` null would use after history h (the server's rule: a named load / save becomes the
-    current file unless that request reported a failed load / save)"""
+def last_file(h: tuple) -> Tuple[str, bool]:
+    """(the file a `load` / `save` null would use after history h, did the load / save of the LAST request succeed).
+
+    The documented rule: null means the last used file; a named load / save becomes the current file unless that request's
+    load or save failed.  Whether it failed is NOT read off the reply (the server decides by matching its own message
+    texts, which is part of what is checked) but follows from the files of the run directory, which the explored
+    requests determine completely: a load succeeds iff its target is a regular file directly in $D that the run started
+    with or that an earlier successful save created (every such file is text the loader accepts); a save succeeds iff
+    its target lies directly in $D and is not a directory (directories are never save targets in the alphabets)."""
+    regular = set(REGULAR0)
     last = "$D/sdkconfig"
-    for i, ln in enumerate(h):
+    ok_last = True
+    for ln in h:
         q = json.loads(ln)
         new = last
-        if q.get("load") is not None:
-            new = q["load"]
-        if q.get("save") is not None:
-            new = q["save"]
-        if new != last:
-            rep, _ = server.parse_reply(lines[i + 1]) if i + 1 < len(lines) else (None, None)
-            errs = rep.get("error") if rep else None
-            if isinstance(errs, list) and any(isinstance(e, str) and e.startswith(("Failed to load from", "Failed to save to")) for e in errs):
+        ok_last = True
+        for key in ("load", "save"):
+            if key not in q:
                 continue
+            t = q[key]
+            if t is None:
+                t = new  # (a load named in the same request is already the current file when the save is handled)
+            else:
+                new = t
+            dn, bn = os.path.split(t)
+            if key == "load":
+                ok = dn == server.PH and bn in regular
+            else:
+                ok = dn == server.PH and bn not in DIRS0
+                if ok:
+                    regular.add(bn)
+            ok_last = ok_last and ok
+        if ok_last:
             last = new
-    return last
+    return last, ok_last
 
 
 class Explorer:
@@ -718,7 +930,7 @@ class Explorer:
         self.files = item["files"]
         self.dv, self.cv = item["dv"], item["cv"]
         self.ev = min(self.dv, self.cv)
-        self.aux = {"hand": item["hand"], "orig": item["sdk0"]}
+        self.aux = aux_of(item["hand"], item["sdk0"])
         self.menu_ids: Optional[List[str]] = None
         self.types: Dict[str, str] = {}
         self.kinds: Dict[str, str] = {}
@@ -764,7 +976,7 @@ class Explorer:
         st = State()
         st.run = run
         st.client, st.bad = fold(run.lines)
-        st.lastfile = last_file(h, run.lines)
+        st.lastfile, st.lastok = last_file(h)
         return st
 
     def server_key(self, st: State) -> tuple:
@@ -852,9 +1064,15 @@ class Explorer:
         if h:
             lastq = json.loads(h[-1])
             rep_last, _ = server.parse_reply(st.run.lines[-1]) if st.run.lines else (None, None)
-            if "save" in lastq and rep_last is not None and "error" not in rep_last:
+            if "save" in lastq and rep_last is not None and "error" not in rep_last and st.lastok:
+                # the file THIS request saved is the one the protocol says is current now (named by the request, else
+                # the last used file; a failed earlier load / save did not change it -- last_file())
                 written = st.run.files.get(os.path.basename(st.lastfile))
-                if written is not None:
+                if written is None:
+                    out[("saved_file_missing", "-", "-", "no_such_file_after_save")] = (
+                        f"the request saved without an error but {st.lastfile} (the file the protocol says it saves to) does not exist afterwards"
+                    )
+                else:
                     got = self.fresh_state(written)
                     self.r.count("saved_file_comparisons")
                     if got[0] != "ok":
@@ -909,7 +1127,10 @@ class Explorer:
 
     def case(self, h: tuple) -> dict:
         it = self.item
-        return {"tree": it["tree"], "files": it["files"], "sdk0": it["sdk0"], "hand": it["hand"], "dv": it["dv"], "cv": it["cv"], "history": list(h)}
+        c = {"tree": it["tree"], "files": it["files"], "sdk0": it["sdk0"], "hand": it["hand"], "dv": it["dv"], "cv": it["cv"], "history": list(h)}
+        if it.get("construct"):
+            c["construct"] = it["construct"]
+        return c
 
     def check(self, h: tuple, st: State) -> None:
         r = self.r
@@ -946,6 +1167,8 @@ class Explorer:
                 continue
             kind, chan, k, how = key
             sig = {"kind": kind, "channel": chan, "how": how, "key_kind": self.kinds.get(k, "-")}
+            if self.item.get("construct"):
+                sig["construct"] = self.item["construct"]  # trees built around ONE construct name it (see trees())
             if k in self.kinds:
                 sig["key_visible"] = bool(live_vis.get(k, False))
             if kind == "client_out_of_sync":
@@ -1051,6 +1274,7 @@ def replay(case) -> List[dict]:
         return r.viols
     item = {k: case[k] for k in ("tree", "files", "sdk0", "hand", "dv", "cv")}
     item["alphabet"] = []
+    item["construct"] = case.get("construct")
     ex = Explorer(item, r)
     ex.prepare()
     h = tuple(case["history"])
@@ -1092,7 +1316,7 @@ def conformance_traces(tier: str, n: int) -> List[dict]:
 
 def conformance_one(case: dict, sub: Optional[dict] = None) -> List[dict]:
     h = list(case["history"])
-    aux = {"hand": case["hand"], "orig": case["sdk0"]}
+    aux = aux_of(case["hand"], case["sdk0"])
     viols: List[dict] = []
     inproc = server.run(case["files"], h, sdkconfig=case["sdk0"], default_version=case["dv"], aux=aux)
     if sub is None:
@@ -1130,7 +1354,7 @@ def conformance(tier: str, seed: int):
         common.silence_stderr()
     try:
         cases = conformance_traces(tier, n)
-        subs = run_subprocesses([((c["files"], list(c["history"])), {"sdkconfig": c["sdk0"], "default_version": c["dv"], "aux": {"hand": c["hand"], "orig": c["sdk0"]}}) for c in cases])
+        subs = run_subprocesses([((c["files"], list(c["history"])), {"sdkconfig": c["sdk0"], "default_version": c["dv"], "aux": aux_of(c["hand"], c["sdk0"])}) for c in cases])
         for case, sub in zip(cases, subs):
             viols.extend(conformance_one(case, sub))
     finally:
